@@ -363,6 +363,22 @@ func TestC02(t *testing.T) {
 				return
 			}
 		}
+		// 2b. no request may silently disappear: when the server answered fewer requests than the stream
+		// contains although every answer it gave left the connection open (no Connection: close on the last
+		// response, no error status), it consumed request bytes without dispatching or answering them.
+		if !c.TrailingGarbage && finals < len(gen) && finals > 0 && len(resps) > 0 {
+			lastResp := resps[len(resps)-1]
+			closing := false
+			for _, v := range lastResp.Get("Connection") {
+				if strings.Contains(strings.ToLower(v), "close") {
+					closing = true
+				}
+			}
+			if lastResp.Fatal == "" && !closing && lastResp.Status < 400 {
+				r.Violation(i, "request-lost", fmt.Sprintf("stream of %d complete requests, only %d final responses, the last one (status %d) keeps the connection open: the remaining request bytes were consumed without dispatch or answer [%s]", len(gen), finals, lastResp.Status, c), payload())
+				return
+			}
+		}
 		// 3. more final responses than messages: a body was parsed as a request without reaching the handler
 		allowed := len(gen)
 		if c.TrailingGarbage {
